@@ -146,6 +146,9 @@ def run(ctx):
             an = dict(x="sliced", a=dict(x="leaf", tree=pt, decl=["SelfAdjoint"]), rs=rs, cs=cs, ia=ia, same=c05.same_sel(rs, cs, ia), decl=[])
             t = dict(k="Sliced", a=pt, rs=rs, cs=cs, ia=ia)
             declared = False
+        elif rnd.random() < 0.07:
+            t = T.near_real_tree(gen, rnd)     # almost-real complex payloads: tolerance-based Hermitian tests must not fire
+            declared = False
         elif declared:
             t = herm_tree(gen, rnd, cplx)
         elif rnd.random() < 0.15:
@@ -169,12 +172,15 @@ def run(ctx):
         else:
             t = gen.tree(rnd.randint(0, 3), None, rnd.choice([cplx, cplx, "mix"]))
         m, n = T.shape(t)
-        if m * n > 400 or T.absbound(t) * 5 * max(m, n) > 2 ** 20:
+        wide64 = set(O.leaf_dts(t)) <= {"float64", "complex128", "int64"}
+        if m * n > 400 or T.absbound(t) * 5 * max(m, n) > (2 ** 45 if wide64 else 2 ** 20):
             continue
         w = [rnd.choice("TH") for _ in range(rnd.randint(1, ctx.budget(3, 5)))]
         k = rnd.choice([1, 2])
         xc = rnd.random() < 0.5
         dx = rnd.choice(T.CPLX if xc else T.REAL)
+        if wide64 and T.absbound(t) > 2 ** 18:
+            dx = "complex128" if xc else "float64"
         if not region_ok(t, dx):
             continue
         try:
